@@ -358,7 +358,9 @@ func genMaggLatestBlock(r *rand.Rand, maxF int) maggIn {
 	n := 2*f + 1 + r.Intn(f+1)
 	b := r.Intn(f + 1)
 	top := int64(100 + r.Intn(1000))
-	canonical := func(num int64) mblock { return mblock{Num: num, Hash: []byte{byte(num), byte(num >> 8), 7}, Ts: uint64(num * 12)} }
+	canonical := func(num int64) mblock {
+		return mblock{Num: num, Hash: []byte{byte(num), byte(num >> 8), 7}, Ts: uint64(num * 12)}
+	}
 	var obs []mobs
 	for i := 0; i < n; i++ {
 		honest := i >= b
